@@ -160,6 +160,7 @@ type csH struct {
 	done     chan error
 	utrusted map[string]handlers.MessageHandler
 	genesis  bitcoin.Hash32
+	bootErr  error
 }
 
 func csCoinbase(tag int) *wire.MsgTx {
@@ -207,12 +208,19 @@ func newCS(t *testing.T, par []int, startB, batch int, store *vStore) *csH {
 		h.bad[b] = bb
 	}
 	h.store = store
-	h.boot()
+	if err := h.boot(); err != nil {
+		h.bootErr = err
+	}
 	return h
 }
 
 // boot creates a node process on the storage (first start or restart).
-func (h *csH) boot() {
+func (h *csH) boot() (err error) {
+	defer func() {
+		if e := recover(); e != nil {
+			err = fmt.Errorf("PANIC in load: %v", e)
+		}
+	}()
 	ctx := vCtx()
 	start := bitcoin.Hash32{0xDD, 0xDD}
 	if x, ok := h.hashOf[h.startB]; ok && h.startB >= 1 && h.startB <= len(h.par) {
@@ -222,7 +230,7 @@ func (h *csH) boot() {
 	h.rec = &csHandler{h: h}
 	h.n.RegisterHandler(h.rec)
 	if err := h.n.load(ctx); err != nil {
-		h.t.Fatalf("load: %v", err)
+		return err
 	}
 	h.n.unconfTxChannel.Open(1000)
 	h.n.outgoing.Open(10000)
@@ -233,6 +241,7 @@ func (h *csH) boot() {
 	us := state.NewUntrustedState()
 	h.utrusted = handlers.NewUntrustedMessageHandlers(ctx, h.n.state, us, h.n.peers, h.n.blocks, h.n.txTracker,
 		h.n.memPool, &h.n.unconfTxChannel, h.n, "1.2.3.4:8333")
+	return nil
 }
 
 func (h *csH) id(x bitcoin.Hash32) int {
@@ -564,7 +573,9 @@ func (h *csH) step1(a csAct) string {
 		h.n.blocks.Save(ctx)
 		h.n.txs.Save(ctx)
 		h.n.peers.Save(ctx)
-		h.boot()
+		if err := h.boot(); err != nil {
+			return "LOAD FAILED: " + err.Error()
+		}
 	default:
 		h.t.Fatalf("unknown action %q", a.A)
 	}
@@ -751,4 +762,110 @@ func TestVerifReplayChainSync(t *testing.T) {
 		h.release()
 	}
 	_ = fmt.Sprint
+}
+
+
+// runScript executes a script (with the pseudo action "Complete" = drive to quiescence) and logs it when tr != nil.
+func (h *csH) runScript(tr *vTrace, id string, steps []csAct, adv bool) bool {
+	for _, a := range steps {
+		if a.A == "Complete" {
+			h.complete(tr, id, adv, 1500)
+			continue
+		}
+		before := h.project()
+		skip := h.step(a)
+		if len(skip) >= 5 && skip[:5] == "PANIC" {
+			tr.Emit(csLine{Tr: id, Act: csNorm(a), St: before, Obs: []csCB{}, Skip: skip, Adv: adv})
+			return false
+		}
+		tr.Emit(csLine{Tr: id, Act: csNorm(a), St: h.project(), Obs: h.takeObs(), Skip: skip, Adv: adv})
+	}
+	return true
+}
+
+// TestVerifCrashChainSync (C10): every scenario is run once on a recording storage; then, for every prefix of the recorded
+// storage mutations, a new node is started on the surviving image and driven to quiescence against the peer; and for every
+// operation index j the scenario is re-run with the j-th storage operation failing, followed by a restart on what was stored.
+func TestVerifCrashChainSync(t *testing.T) {
+	var in struct {
+		Par     []int `json:"par"`
+		Start   int   `json:"start"`
+		Batch   int   `json:"batch"`
+		Scripts []struct {
+			ID     string  `json:"id"`
+			Ptip   int     `json:"ptip"`
+			Steps  []csAct `json:"steps"`
+			Faults bool    `json:"faults"`
+			Stride int     `json:"stride"`
+		} `json:"scripts"`
+	}
+	vLoadScripts(t, &in)
+	tr := vOpenTrace(t)
+	defer tr.Close()
+	for _, sc := range in.Scripts {
+		store := newVStore()
+		h := newCS(t, in.Par, in.Start, in.Batch, store)
+		h.ptip = sc.Ptip
+		tr.Emit(csLine{Tr: sc.ID, Act: csNorm(csAct{A: "init"}), St: h.project(), Obs: []csCB{}, Adv: true})
+		h.runScript(tr, sc.ID, sc.Steps, true)
+		h.release()
+		muts := append([]vMutation{}, store.muts...)
+		ops := store.ops
+		final := h.ptip
+		stride := sc.Stride
+		if stride < 1 {
+			stride = 1
+		}
+		for i := 0; i <= len(muts); i++ {
+			if i%stride != 0 && i != len(muts) {
+				continue
+			}
+			id := fmt.Sprintf("%s#crash%d", sc.ID, i)
+			h2 := newCS(t, in.Par, in.Start, in.Batch, &vStore{inner: vImage(muts, i)})
+			if h2.bootErr != nil {
+				tr.Emit(csLine{Tr: id, Act: csNorm(csAct{A: "init"}), St: csSt{Chain: []int{}, Req: []csReqP{}, ToReq: []int{}, Net: []csMsg{}, Out: []csReq{}, Hts: make([]int, len(in.Par)), AnnH: []int{}, AnnB: []int{}, Infl: csInfl{Pc: "idle"}},
+					Obs: []csCB{}, Skip: "LOAD FAILED: " + h2.bootErr.Error()})
+				continue
+			}
+			h2.ptip = final
+			tr.Emit(csLine{Tr: id, Act: csNorm(csAct{A: "init"}), St: h2.project(), Obs: []csCB{}})
+			h2.complete(tr, id, false, 1500)
+			tr.Emit(csLine{Tr: id, Act: csNorm(csAct{A: "final"}), St: h2.project(), Obs: h2.takeObs(), Fin: true})
+			h2.release()
+		}
+		if !sc.Faults {
+			continue
+		}
+		for j := 1; j <= ops; j++ {
+			if j%stride != 0 {
+				continue
+			}
+			s2 := newVStore()
+			s2.failAt = j
+			idm := fmt.Sprintf("%s#fault%dm", sc.ID, j)
+			h3 := newCS(t, in.Par, in.Start, in.Batch, s2)
+			if h3.bootErr != nil {
+				continue // the very first load failed: nothing was ever stored or held
+			}
+			h3.ptip = sc.Ptip
+			tr.Emit(csLine{Tr: idm, Act: csNorm(csAct{A: "init"}), St: h3.project(), Obs: []csCB{}, Adv: true})
+			ok := h3.runScript(tr, idm, sc.Steps, true)
+			if ok {
+				tr.Emit(csLine{Tr: idm, Act: csNorm(csAct{A: "final"}), St: h3.project(), Obs: h3.takeObs(), Adv: true})
+			}
+			h3.release()
+			idr := fmt.Sprintf("%s#fault%dr", sc.ID, j)
+			h4 := newCS(t, in.Par, in.Start, in.Batch, &vStore{inner: s2.inner})
+			if h4.bootErr != nil {
+				tr.Emit(csLine{Tr: idr, Act: csNorm(csAct{A: "init"}), St: csSt{Chain: []int{}, Req: []csReqP{}, ToReq: []int{}, Net: []csMsg{}, Out: []csReq{}, Hts: make([]int, len(in.Par)), AnnH: []int{}, AnnB: []int{}, Infl: csInfl{Pc: "idle"}},
+					Obs: []csCB{}, Skip: "LOAD FAILED: " + h4.bootErr.Error()})
+				continue
+			}
+			h4.ptip = h3.ptip
+			tr.Emit(csLine{Tr: idr, Act: csNorm(csAct{A: "init"}), St: h4.project(), Obs: []csCB{}})
+			h4.complete(tr, idr, false, 1500)
+			tr.Emit(csLine{Tr: idr, Act: csNorm(csAct{A: "final"}), St: h4.project(), Obs: h4.takeObs(), Fin: true})
+			h4.release()
+		}
+	}
 }
